@@ -21,7 +21,7 @@ ID = "C04"
 LEVEL = "model_checking"
 MIN_OUTCOMES = 2
 MANIFEST = {
-    'text': 'Complete enumeration of the stated content table (11 filler flavours - text to the left and right of every occurrence and on the lines around it - incl. non-ASCII, astral, control and regex characters and text whose length changes under Unicode normalisation, case mapping or stripping of invisible characters x 6 line-ending regimes x final newline x BOM x blank edge lines x arrangements incl. occurrences at the very start/end of a file and single-line files x v2/legacy patterns; the config file itself carries non-ASCII text and, in CRLF projects, CRLF line endings): each project is updated by the real CLI in-process and, for the reduced table, again by `python -m bumpver` under LC_ALL=C with UTF-8 mode off; file bytes are compared with the skeleton they were constructed from, so any byte outside a matched span that changes is detected; bystander files keep bytes and mtime.',
+    'text': 'Complete enumeration of the stated content table (11 filler flavours - text to the left and right of every occurrence and on the lines around it - incl. non-ASCII, astral, control and regex characters and text whose length changes under Unicode normalisation, case mapping or stripping of invisible characters x 6 line-ending regimes x final newline x BOM x blank edge lines x arrangements incl. occurrences at the very start/end of a file and single-line files x v2/legacy patterns; projects in which one glob entry is shared by three files and one of them is named again by another entry, with decoy text in the siblings; the config file itself carries non-ASCII text and, in CRLF projects, CRLF line endings): each project is updated by the real CLI in-process and, for the reduced table, again by `python -m bumpver` under LC_ALL=C with UTF-8 mode off; file bytes are compared with the skeleton they were constructed from, so any byte outside a matched span that changes is detected; bystander files keep bytes and mtime.',
     'note': 'code points outside the alphabet and files beyond a few hundred bytes are not covered',
     'technique': 'exhaustive enumeration of a bounded file-content space executed on the real CLI (two locales), by-construction byte oracle',
 }
